@@ -48,5 +48,74 @@ package connectconformance
 //@   ensures @entries forall k string :: has(lib.testCases, k) && !old(has(lib.testCases, k)) ==> entryFor(lib.testCases[k], k, cfgCase) && fresh(lib.testCases[k]) && has(lib.testCaseNames, k)
 //@   ensures @kept forall k string :: old(has(lib.testCases, k)) ==> has(lib.testCases, k) && lib.testCases[k] == old(lib.testCases[k])
 //@   loop 0: invariant lib.testCases != nil && lib.testCaseNames != nil
-//@           invariant forall k string :: has(lib.testCases, k) && !atpre(has(lib.testCases, k)) ==> entryFor(lib.testCases[k], k, cfgCase) && fresh(lib.testCases[k]) && fresh(lib.testCases[k].Request) && has(lib.testCaseNames, k)
+//@           invariant forall k string :: has(lib.testCases, k) && !atpre(has(lib.testCases, k)) ==> entryFor(lib.testCases[k], k, cfgCase) && fresh(lib.testCases[k]) && allocated(lib.testCases[k]) && fresh(lib.testCases[k].Request) && allocated(lib.testCases[k].Request) && has(lib.testCaseNames, k)
 //@           invariant forall k string :: atpre(has(lib.testCases, k)) ==> has(lib.testCases, k) && lib.testCases[k] == atpre(lib.testCases[k])
+
+// groupTestCases: a case is filed under the server instance computed from its own request and
+// under no other: every member of a group has that group's protocol, HTTP version and TLS markers.
+//@ spec svrMatches(g serverInstance, tc *conformancev1.TestCase) bool = g.protocol == tc.Request.Protocol && g.httpVersion == tc.Request.HttpVersion &&
+//@    g.useTLS == (len(tc.Request.ServerTlsCert) > 0) && g.useTLSClientCerts == (tc.Request.ClientTlsCreds != nil)
+//@ mapvalues map[string]*conformancev1.TestCase: v != nil && v.Request != nil
+//@ func (*testCaseLibrary).groupTestCases
+//@   requires lib != nil
+//@   modifies testCaseLibrary.casesByServer, mapof(testCaseLibrary.casesByServer), []*conformancev1.TestCase
+//@   ensures @groups lib.casesByServer != nil && forall g serverInstance, i int :: has(lib.casesByServer, g) && 0 <= i && i < len(lib.casesByServer[g]) ==>
+//@        lib.casesByServer[g][i] != nil && lib.casesByServer[g][i].Request != nil && svrMatches(g, lib.casesByServer[g][i])
+//@   loop 0: invariant lib.casesByServer != nil && fresh(lib.casesByServer)
+//@           invariant forall g serverInstance :: has(lib.casesByServer, g) ==> (slicebase(lib.casesByServer[g]) == 0 || fresh(lib.casesByServer[g])) && allocated(lib.casesByServer[g])
+//@           invariant forall g1 serverInstance, g2 serverInstance :: has(lib.casesByServer, g1) && has(lib.casesByServer, g2) && g1 != g2 && slicebase(lib.casesByServer[g1]) != 0 ==> slicebase(lib.casesByServer[g1]) != slicebase(lib.casesByServer[g2])
+//@           invariant forall g serverInstance, i int :: has(lib.casesByServer, g) && 0 <= i && i < len(lib.casesByServer[g]) ==>
+//@        lib.casesByServer[g][i] != nil && lib.casesByServer[g][i].Request != nil && svrMatches(g, lib.casesByServer[g][i])
+
+// filterGRPCImplTestCases: what is run against the gRPC reference implementations - copies
+// of the cases that those implementations support: gRPC over HTTP/2 (gRPC-Web over HTTP/1.1
+// or HTTP/2, server side only), proto codec, identity or gzip, no TLS.
+//@ spec grpcImplOK(tc *conformancev1.TestCase, clientIsGRPCImpl bool) bool =
+//@    tc.Request.Protocol != 1 && (!clientIsGRPCImpl || tc.Request.Protocol == 2) &&
+//@    (tc.Request.Protocol == 3 ? (tc.Request.HttpVersion == 1 || tc.Request.HttpVersion == 2) : tc.Request.HttpVersion == 2) &&
+//@    tc.Request.Codec == 1 && (tc.Request.Compression == 1 || tc.Request.Compression == 2) && len(tc.Request.ServerTlsCert) == 0
+//@ func (*testCaseLibrary).filterGRPCImplTestCases
+//@   requires lib != nil && forall i int :: 0 <= i && i < len(testCases) ==> testCases[i] != nil && testCases[i].Request != nil
+//@   modifies conformancev1.ClientCompatRequest.TestName
+//@   ensures @identity !clientIsGRPCImpl && !serverIsGRPCImpl ==> result == testCases
+//@   ensures @supported clientIsGRPCImpl || serverIsGRPCImpl ==> forall i int :: 0 <= i && i < len(result) ==>
+//@        result[i] != nil && fresh(result[i]) && result[i].Request != nil && grpcImplOK(result[i], clientIsGRPCImpl)
+//@   loop 0: invariant (slicebase(filtered) == 0 || fresh(filtered)) && lib != nil
+//@           invariant forall i int :: 0 <= i && i < len(filtered) ==>
+//@        filtered[i] != nil && fresh(filtered[i]) && allocated(filtered[i]) && filtered[i].Request != nil && fresh(filtered[i].Request) && allocated(filtered[i].Request) && grpcImplOK(filtered[i], clientIsGRPCImpl)
+
+//@ func populateExpectedResponse
+//@   trusted
+//@   requires testCase != nil
+//@   modifies conformancev1.TestCase.ExpectedResponse
+//@   //# specified under C02
+
+// expandSuite: a misconfigured suite is an error, never a silent expansion; everything it adds
+// to the library is added by expandCases for a config case that is in the given set.
+//@ func (*testCaseLibrary).expandSuite
+//@   requires lib != nil && lib.testCases != nil && lib.testCaseNames != nil && suite != nil && configCases != nil
+//@   requires forall i int :: 0 <= i && i < len(suite.TestCases) ==> suite.TestCases[i] != nil && suite.TestCases[i].Request != nil
+//@   modifies mapof(testCaseLibrary.testCases), mapof(testCaseLibrary.testCaseNames), conformancev1.ClientCompatRequest.*, conformancev1.TLSCreds.*, *string, []string, []bool
+//@   ensures @certs-need-tls suite.ReliesOnTlsClientCerts && !suite.ReliesOnTls ==> result != nil
+//@   ensures @kept forall k string :: old(has(lib.testCases, k)) ==> has(lib.testCases, k) && lib.testCases[k] == old(lib.testCases[k])
+//@   loop 0: invariant lib.testCases != nil && lib.testCaseNames != nil && forall k string :: atpre(has(lib.testCases, k)) ==> has(lib.testCases, k) && lib.testCases[k] == atpre(lib.testCases[k])
+//@   loop 1: invariant lib.testCases != nil && lib.testCaseNames != nil && forall k string :: atpre(has(lib.testCases, k)) ==> has(lib.testCases, k) && lib.testCases[k] == atpre(lib.testCases[k])
+//@   loop 2: invariant lib.testCases != nil && lib.testCaseNames != nil && forall k string :: atpre(has(lib.testCases, k)) ==> has(lib.testCases, k) && lib.testCases[k] == atpre(lib.testCases[k])
+//@   loop 3: invariant lib.testCases != nil && lib.testCaseNames != nil && forall k string :: atpre(has(lib.testCases, k)) ==> has(lib.testCases, k) && lib.testCases[k] == atpre(lib.testCases[k])
+//@   loop 4: invariant lib.testCases != nil && lib.testCaseNames != nil && forall k string :: atpre(has(lib.testCases, k)) ==> has(lib.testCases, k) && lib.testCases[k] == atpre(lib.testCases[k])
+//@   loop 5: invariant lib.testCases != nil && lib.testCaseNames != nil && forall k string :: atpre(has(lib.testCases, k)) ==> has(lib.testCases, k) && lib.testCases[k] == atpre(lib.testCases[k])
+
+//@ mapvalues map[string]*conformancev1.TestSuite: v != nil
+//@ func (*testCaseLibrary).populateExpectedResponses
+//@   requires lib != nil
+//@   modifies conformancev1.TestCase.ExpectedResponse
+// newTestCaseLibrary: suites must be named, non-empty and uniquely named; a library is only
+// returned when it has at least one test case, and then it is grouped.
+//@ func newTestCaseLibrary
+//@   requires allSuites != nil ==> (forall f string :: has(allSuites, f) ==> forall i int :: 0 <= i && i < len(allSuites[f].TestCases) ==> allSuites[f].TestCases[i] != nil && allSuites[f].TestCases[i].Request != nil)
+//@   ensures @ok result_1 == nil ==> result_0 != nil && fresh(result_0) && result_0.testCases != nil && len(result_0.testCases) > 0 && result_0.casesByServer != nil
+//@   ensures @named (exists f string :: has(allSuites, f) && allSuites[f].Name == "") ==> result_1 != nil
+//@   ensures @nonempty (exists f string :: has(allSuites, f) && len(allSuites[f].TestCases) == 0) ==> result_1 != nil
+//@   loop 1: invariant lib != nil && fresh(lib) && lib.testCases != nil && lib.testCaseNames != nil && suitesIndex != nil && configCaseSet != nil
+//@           invariant forall f string :: has(allSuites, f) && rangeidx(f) < rangepos ==> allSuites[f].Name != "" && len(allSuites[f].TestCases) > 0
+//@   loop 0: invariant configCaseSet != nil && fresh(configCaseSet)
